@@ -10,6 +10,7 @@
 #include <cocls/generator.h>
 #include <cocls/mutex.h>
 #include <cocls/with_allocator.h>
+#include <cocls/callback_awaiter.h>
 
 #include <memory>
 #include <sstream>
@@ -75,9 +76,13 @@ struct CbAw : cocls::awaiter {
 };
 
 template <typename T>
-static void f1_case(seqx::Runner &R, const char *tname, int nco, int nhasv, bool cb, int outcome, bool await_sp, std::exception_ptr &prebuilt) {
+static void f1_case(seqx::Runner &R, const char *tname, int nco, int nhasv, int extra, int outcome, bool await_sp, std::exception_ptr &prebuilt) {
+    // extra waiters that are not coroutines: 0 none, 1 callback awaiter, 2 one sync_awaiter (what a thread blocked in
+    // wait()/sync() registers), 3 two sync_awaiters, 4 callback + two sync_awaiters. They do not travel in the suspend point.
+    bool cb = extra == 1 || extra == 4;
+    int nsync = extra == 2 ? 1 : extra >= 3 ? 2 : 0;
     std::ostringstream d;
-    d << "F1 future<" << tname << "> coroutine_waiters=" << nco << " has_value_waiters=" << nhasv << " callback_awaiter=" << cb << " outcome=" << outcome << " resolve_in_coroutine=" << await_sp;
+    d << "F1 future<" << tname << "> coroutine_waiters=" << nco << " has_value_waiters=" << nhasv << " callback_awaiter=" << cb << " sync_awaiters=" << nsync << " outcome=" << outcome << " resolve_in_coroutine=" << await_sp;
     if (!R.next_case_named(d.str())) return;
     R.begin(d.str());
     static Store stores[8];
@@ -94,6 +99,11 @@ static void f1_case(seqx::Runner &R, const char *tname, int nco, int nhasv, bool
         if (cb) {
             cocls::co_awaiter<cocls::future<T>> aw(f);
             aw.subscribe(&cbaw);
+        }
+        cocls::sync_awaiter sa[2];
+        for (int i = 0; i < nsync; i++) {
+            cocls::co_awaiter<cocls::future<T>> aw(f);
+            aw.subscribe(&sa[i]);
         }
         switch (outcome) {
             case 0:
@@ -114,6 +124,8 @@ static void f1_case(seqx::Runner &R, const char *tname, int nco, int nhasv, bool
         bool hv = f.has_value();
         (void)hv;
         if (cb && cbaw.fired != 1) R.fail("noalloc/harness", "callback awaiter fired %d times", cbaw.fired);
+        for (int i = 0; i < nsync; i++)
+            if (!sa[i].flag.load()) R.fail("noalloc/harness", "sync_awaiter %d not woken", i);
         for (int i = 0; i < k; i++)
             if (!seen[i]) R.fail("noalloc/harness", "waiter %d not released", i);
     }
@@ -343,6 +355,52 @@ static void mutex_case(seqx::Runner &R) {
     R.end(true);
 }
 
+// ------------------------------------------------------------------------------------------------ family F6: callback await on the stack
+// callback_await_alloc<stack_storage, ...>: the frame of the helper coroutine lives in caller-provided (stack) memory once
+// the shared size state has learned the frame size in one warm-up round - "those too disappear under a non-heap policy"
+static void cbawait_stack_case(seqx::Runner &R, int outcome, size_t initial_state) {
+    std::ostringstream d;
+    d << "F6 callback_await on stack_storage outcome=" << outcome << " initial_state=" << initial_state;
+    if (!R.next_case_named(d.str())) return;
+    R.begin(d.str());
+    static char buffer[4096];
+    std::exception_ptr prebuilt = std::make_exception_ptr(TestError());
+    size_t state = initial_state;
+    uint64_t per_round[3] = {0, 0, 0};
+    for (int round = 0; round < 3; round++) {
+        int fired = 0;
+        region_begin();
+        {
+            cocls::future<int> f;
+            cocls::promise<int> p = f.get_promise();
+            cocls::stack_storage storage(state);
+            if ((size_t)storage > sizeof buffer) {
+                R.fail("noalloc/harness", "stack_storage asks for %zu bytes", (size_t)storage);
+                break;
+            }
+            storage = buffer;
+            cocls::callback_await_alloc<cocls::stack_storage, cocls::future<int> &>(
+                storage, [&fired](cocls::await_result<int> r) { fired += r ? 1 : 2; }, f);
+            switch (outcome) {
+                case 0: p(5); break;
+                case 1: p(prebuilt); break;
+                default: p(cocls::drop); break;
+            }
+        }
+        per_round[round] = region_allocs();
+        if (fired != (outcome == 0 ? 1 : 2)) R.fail("noalloc/harness", "callback fired=%d in round %d", fired, round);
+        R.step();
+    }
+    // round 0 may fall back to the heap once (and teaches the shared state); afterwards nothing may be allocated
+    if (per_round[0] > 1) R.fail("noalloc/callback-await-stack", "%lu allocations in the learning round", (unsigned long)per_round[0]);
+    if (per_round[1] || per_round[2])
+        R.fail("noalloc/callback-await-stack", "callback_await on a stack_storage still allocates after the learning round: %lu, %lu (shared state %zu)", (unsigned long)per_round[1],
+               (unsigned long)per_round[2], state);
+    R.state(seqx::hash_str(d.str()));
+    R.outcome(per_round[0]);
+    R.end(true);
+}
+
 }  // namespace
 
 void seqx_run(seqx::Runner &R, const std::string &tier) {
@@ -353,18 +411,20 @@ void seqx_run(seqx::Runner &R, const std::string &tier) {
     std::exception_ptr prebuilt = std::make_exception_ptr(TestError());
     for (int nco = 0; nco <= 3; nco++)
         for (int nh = 0; nh + nco <= 3; nh++)  // coroutine-type waiters travel in the suspend point: inline capacity three
-            for (int cb = 0; cb < 2; cb++)
+            for (int cb = 0; cb < 5; cb++)
                 for (int out = 0; out < 4; out++)
                     for (int ty = 0; ty < 3; ty++) {
                         if (R.stop()) return;
                         if (ty == 0)
-                            f1_case<int>(R, "int", nco, nh, cb != 0, out, false, prebuilt);
+                            f1_case<int>(R, "int", nco, nh, cb, out, false, prebuilt);
                         else if (ty == 1)
-                            f1_case<void>(R, "void", nco, nh, cb != 0, out, false, prebuilt);
+                            f1_case<void>(R, "void", nco, nh, cb, out, false, prebuilt);
                         else
-                            f1_case<Big>(R, "struct32", nco, nh, cb != 0, out, false, prebuilt);
+                            f1_case<Big>(R, "struct32", nco, nh, cb, out, false, prebuilt);
                     }
     mutex_case(R);
+    for (int out = 0; out < 3; out++)
+        for (size_t init : {(size_t)0, (size_t)32, (size_t)4000}) cbawait_stack_case(R, out, init);
     for (int n = 0; n <= 4; n++)
         for (int how = 0; how < 4; how++)
             sp_case(R, n, how);
